@@ -18,6 +18,7 @@ import (
 	"github.com/sdcio/data-server/pkg/utils"
 	"github.com/sdcio/data-server/pkg/verifhook"
 	sdcpb "github.com/sdcio/sdc-protos/sdcpb"
+	log "github.com/sirupsen/logrus"
 	"google.golang.org/protobuf/proto"
 	"google.golang.org/protobuf/types/known/emptypb"
 )
@@ -1304,6 +1305,39 @@ func (s *sharedEntryAttributes) populateChoiceCaseResolvers(ctx context.Context)
 				}
 			}
 			choiceResolver.SetValue(elem, v, oldV)
+		}
+
+		// if another case becomes the active one, its content might (partly) be held by owners that
+		// do not take part in the transaction and is then not loaded into the tree yet.
+		newBestCaseName := choiceResolver.getBestCaseName()
+		if newBestCaseName == "" || newBestCaseName == choiceResolver.getOldBestCaseName() {
+			continue
+		}
+		branches := PathSlices{}
+		for _, elem := range choiceResolver.getCaseElementNames(newBestCaseName) {
+			branches = append(branches, append(s.Path(), elem))
+		}
+		owners := s.treeContext.GetOwners()
+		// the entries of the owners of the transaction are skipped, so one more priority level is read
+		for _, upd := range s.treeContext.GetTreeSchemaCacheClient().ReadCurrentUpdatesHighestPriorities(ctx, branches, uint64(len(owners)+1)) {
+			if _, isTransactionOwner := owners[upd.Owner()]; isTransactionOwner {
+				continue
+			}
+			// the read matches on the beginning of the key, siblings that just share the beginning of the name are no part of the branch
+			isPartOfBranch := false
+			for _, b := range branches {
+				if len(upd.GetPath()) >= len(b) && slices.Equal(upd.GetPath()[:len(b)], []string(b)) {
+					isPartOfBranch = true
+					break
+				}
+			}
+			if !isPartOfBranch {
+				continue
+			}
+			_, err := s.AddCacheUpdateRecursive(ctx, upd, NewUpdateInsertFlags())
+			if err != nil {
+				log.Errorf("loading the active case %s of %s: %v", newBestCaseName, s.Path(), err)
+			}
 		}
 	}
 }
